@@ -46,6 +46,9 @@ type Profile struct {
 	HostileNames      bool // parameter names that stress identifier concatenation in the templates (C09)
 	CompileHostile    bool // value shapes the acceptance survey found to break compilation (C09 only)
 	TemplateTwins     bool // same path shape under another verb with differently named {variables} (spec profiles only)
+	SameNameTypes     bool // an enum twin with the same type name in another package, used under the same parameter name
+	LookalikeTypes    bool // user types named like the types gleece special-cases (context.Context, time.Time) in packages named alike
+	DashedWireNames   bool // wire names with '-' and '_' for path/query parameters
 	OAuthSchemes      bool // oauth2 (1-4 flows, differing scopes) and openIdConnect schemes in the configuration
 }
 
@@ -63,6 +66,7 @@ type gen struct {
 	hostileUsed  bool
 	hostileNames bool
 	curPkg       string // package of the controller being generated
+	lookalike    string // pkg key of the lookalike package ("" none)
 	r            *rand.Rand
 	prof         Profile
 	p            *Project
@@ -115,13 +119,97 @@ func Gen(r *rand.Rand, prof Profile, name, modRoot string) *Project {
 	if prof.CompileHostile && g.chance(0.45) {
 		g.hostileKind = g.pick([]string{"map-body", "map-result", "time-result", "ptr-slice-body", "ptr-slice-result"})
 	}
+	if prof.LookalikeTypes && prof.Models > 0 && g.chance(0.3) {
+		if g.chance(0.6) {
+			g.lookalike = "hctx"
+			p.Pkgs = append(p.Pkgs, Pkg{Key: "hctx", Dir: "pkg/context", Name: "context"})
+			g.prof.CtxParams = false // the user's files cannot import both packages named context
+			p.SetFeature("user-type-context.Context")
+		} else {
+			g.lookalike = "htime"
+			p.Pkgs = append(p.Pkgs, Pkg{Key: "htime", Dir: "pkg/time", Name: "time"})
+			g.prof.AnyBytesTime = false
+			p.SetFeature("user-type-time.Time")
+		}
+	}
 	g.genConfig()
 	g.genTypes()
 	g.genControllers()
+	g.postControllers()
 	return p
 }
 
-var pkgRank = map[string]int{"shared": 0, "models": 1, "ctl2": 2, "ctl": 3}
+// postControllers plants the shapes that need two cooperating sites.
+func (g *gen) postControllers() {
+	p := g.p
+	type site struct{ ci, mi int }
+	var eps []site
+	for ci := range p.Controllers {
+		for mi := range p.Controllers[ci].Methods {
+			if p.Controllers[ci].Methods[mi].IsEndpoint() {
+				eps = append(eps, site{ci, mi})
+			}
+		}
+	}
+	hasParam := func(m *Method, name string) bool {
+		for _, pr := range m.Params {
+			if pr.GoName == name {
+				return true
+			}
+		}
+		return false
+	}
+	if g.lookalike != "" {
+		name := map[string]string{"hctx": "Context", "htime": "Time"}[g.lookalike]
+		for _, s := range eps {
+			m := &p.Controllers[s.ci].Methods[s.mi]
+			done := false
+			for pi := range m.Params {
+				if m.Params[pi].In == "body" {
+					m.Params[pi].Type = Named(g.lookalike, name)
+					m.Params[pi].Validate = ""
+					done = true
+				}
+			}
+			if !done && !hasBodyOrForm(m.Params) && !hasParam(m, "payload") {
+				for _, v := range bodyVerbs {
+					if m.Verb == v {
+						m.Params = append(m.Params, Param{GoName: "payload", In: "body", Type: Named(g.lookalike, name)})
+						done = true
+					}
+				}
+			}
+			if done {
+				break
+			}
+		}
+	}
+	if g.prof.SameNameTypes && len(p.Enums) > 0 && len(eps) >= 2 {
+		src := p.Enums[0]
+		other := ""
+		for _, pk := range p.Pkgs {
+			if pk.Key != src.Pkg && pk.Key != "hctx" && pk.Key != "htime" && pk.Key != "ctl" && pk.Key != "ctl2" {
+				other = pk.Key
+			}
+		}
+		if other != "" && g.chance(0.5) {
+			twin := src
+			twin.Pkg = other
+			twin.Decoys = nil
+			twin.Values = append([]EnumConst{}, src.Values...)
+			p.Enums = append(p.Enums, twin)
+			a, b := eps[0], eps[len(eps)-1]
+			ma, mb := &p.Controllers[a.ci].Methods[a.mi], &p.Controllers[b.ci].Methods[b.mi]
+			if !hasParam(ma, "kind") && !hasParam(mb, "kind") {
+				ma.Params = append(ma.Params, Param{GoName: "kind", In: "query", Type: Named(src.Pkg, src.Name)})
+				mb.Params = append(mb.Params, Param{GoName: "kind", In: "query", Type: Named(other, src.Name)})
+				p.SetFeature("same-type-name-two-packages-same-parameter-name")
+			}
+		}
+	}
+}
+
+var pkgRank = map[string]int{"hctx": -1, "htime": -1, "shared": 0, "models": 1, "ctl2": 2, "ctl": 3}
 
 // visible: package `from` may import package `of` (the generator keeps the package graph acyclic).
 func visible(from, of string) bool { return pkgRank[of] <= pkgRank[from] }
@@ -362,6 +450,11 @@ func (g *gen) genTypes() {
 			s.Descr = s.Name + " model. " + g.pick(descrPool)
 		}
 		p.Structs = append(p.Structs, s)
+	}
+	if g.lookalike != "" {
+		name := map[string]string{"hctx": "Context", "htime": "Time"}[g.lookalike]
+		g.used[name] = true
+		p.Structs = append([]Struct{{Name: name, Pkg: g.lookalike, Fields: []Field{{GoName: "Tenant", Type: Prim("string"), JSONName: "tenant"}, {GoName: "Depth", Type: Prim("int"), JSONName: "depth"}}}}, p.Structs...)
 	}
 	if prof.Models >= 2 && g.chance(0.35) {
 		// an unexported struct type (exported fields) that later structs of its package may embed
@@ -953,6 +1046,9 @@ func (g *gen) genMethod(c *Controller, idx int) Method {
 			seg := pr.GoName
 			if prof.WireNames && g.chance(0.3) {
 				pr.Wire = pr.GoName + "Key"
+				if prof.DashedWireNames {
+					pr.Wire = pr.GoName + g.pick([]string{"Key", "-id", "_id", "-x-y"})
+				}
 				seg = pr.Wire
 			}
 			if g.chance(0.5) {
@@ -985,6 +1081,9 @@ func (g *gen) genMethod(c *Controller, idx int) Method {
 				pr.Wire = "X-" + strings.ToUpper(pr.GoName[:1]) + pr.GoName[1:] + "-Hdr"
 			} else {
 				pr.Wire = pr.GoName + "_q"
+				if prof.DashedWireNames && g.chance(0.4) {
+					pr.Wire = pr.GoName + "-q"
+				}
 			}
 		}
 		if in == "header" && pr.Wire == "" && g.chance(0.5) {
